@@ -39,6 +39,25 @@ def step (running : Option Cfg) (op : Op) (accepted : Bool) : Option Cfg :=
   | .junk => running
   | _ => if accepted then attempted running op else running
 
+/-- does the operation try to install a configuration? (load, PATCH app, DELETE app) -/
+def installs : Op → Bool
+  | .load _ _ => true
+  | .patch _ _ => true
+  | .del _ _ => true
+  | _ => false
+
+/-- the process default logger, as a client may rely on it: it belongs to the operation that
+    installed the last accepted configuration (`n` = number of the operation, owner = n + 1; 0 =
+    the logger from before the history). "Unchanged", rejected attempts, malformed requests, dry
+    runs and Stop do not move it. -/
+def logger (d n : Nat) (op : Op) (r : Res) : Nat :=
+  if installs op = true ∧ r = .ok then n + 1 else d
+
+/-- … over a history of (operation, answer) pairs, numbered from `n` -/
+def loggerAfter : Nat → Nat → List (Op × Res) → Nat
+  | d, _, [] => d
+  | d, n, (op, r) :: rest => loggerAfter (logger d n op r) (n + 1) rest
+
 end Spec
 
 /-- model and spec side by side over a history; the spec is told only whether each attempt was
